@@ -972,11 +972,11 @@ def adversarial_cases(ctx, stats, thorough):
                                             for i in range(10 ** 4 if thorough else 2000)),
         note="10^4 definitions in the thorough tier (300 kB, beyond `modest size`)")
     # fourth audit: definitions of several hundred statements in the quick tier too (sizes chosen so that the unchanged
-    # debug build needs 2 - 8 s alone: the machine is shared and 16 runs side by side cost a factor 3 - 4; the sizes 500 and 1000 are in the thorough tier); every `flat:` case runs with the debug log of cfg.rs on (run()), so that boxed
+    # debug build needs 2 - 8 s alone: the machine is shared and 16 runs side by side cost a factor 3 - 4; the size 500 is in the thorough tier; 1000 is NOT run: the unchanged tool does not end within the 300 s watchdog on 1000 sequential `if`s in the debug build - stated in the known finding C01-long-definition-time - so the case could only ever be red); every `flat:` case runs with the debug log of cfg.rs on (run()), so that boxed
     # and unboxed time are known for each of them, time-out or not
     QUICK_LONG = {"statements": 300, "signals": 250, "vars-declared": 500, "phi-web": 100, "value-chain": 500, "constant-chain": 250}
     for name, fn in FLAT_SHAPES.items():
-        for n in ((60, 120, QUICK_LONG[name]) if not thorough else (60, 120, 250, 500, 1000)):
+        for n in ((60, 120, QUICK_LONG[name]) if not thorough else (60, 120, 250, 500)):
             add("flat:%s-%d" % (name, n), fn(n))
     add("params-1000", "template T(%s) { }\ncomponent main = T(%s);\n" % (", ".join("p%d" % i for i in range(1000)),
                                                                               ", ".join("1" for _ in range(1000))))
